@@ -306,6 +306,59 @@ namespace bloch::compiler {
         return out;
     }
 
+    SemanticAnalyser::TypeInfo SemanticAnalyser::baseTypeOf(const TypeInfo& classType) const {
+        const ClassInfo* ci = findClass(classType.className);
+        if (!ci || ci->base.empty())
+            return combine(ValueType::Unknown, "");
+        if (ci->baseType.className.empty())
+            return combine(ValueType::Unknown, ci->base);
+        return substituteTypeParams(ci->baseType, ci->typeParams, classType.typeArgs);
+    }
+
+    SemanticAnalyser::TypeInfo SemanticAnalyser::ownerTypeFor(const TypeInfo& classType,
+                                                              const std::string& owner) const {
+        TypeInfo cur = classType;
+        for (int hops = 0; hops < 300 && !cur.className.empty(); ++hops) {
+            if (cur.className == owner)
+                return cur;
+            cur = baseTypeOf(cur);
+        }
+        return combine(ValueType::Unknown, owner);
+    }
+
+    SemanticAnalyser::TypeInfo SemanticAnalyser::memberTypeFrom(const TypeInfo& classType,
+                                                                const std::string& owner,
+                                                                const TypeInfo& declared) const {
+        const ClassInfo* oc = findClass(owner);
+        if (!oc || oc->typeParams.empty())
+            return declared;
+        TypeInfo ownerType = ownerTypeFor(classType, owner);
+        if (ownerType.typeArgs.empty())
+            return declared;
+        return substituteTypeParams(declared, oc->typeParams, ownerType.typeArgs);
+    }
+
+    std::vector<SemanticAnalyser::TypeInfo> SemanticAnalyser::memberTypesFrom(
+        const TypeInfo& classType, const std::string& owner,
+        const std::vector<TypeInfo>& declared) const {
+        std::vector<TypeInfo> res;
+        res.reserve(declared.size());
+        for (const auto& t : declared) res.push_back(memberTypeFrom(classType, owner, t));
+        return res;
+    }
+
+    SemanticAnalyser::TypeInfo SemanticAnalyser::selfType() const {
+        TypeInfo self = combine(ValueType::Unknown, m_currentClass);
+        if (const ClassInfo* ci = findClass(m_currentClass)) {
+            for (const auto& tp : ci->typeParams) {
+                TypeInfo arg = combine(ValueType::Unknown, tp.name);
+                arg.isTypeParam = true;
+                self.typeArgs.push_back(arg);
+            }
+        }
+        return self;
+    }
+
     std::vector<SemanticAnalyser::TypeInfo> SemanticAnalyser::substituteMany(
         const std::vector<TypeInfo>& types, const std::vector<ClassInfo::TypeParamInfo>& params,
         const std::vector<TypeInfo>& args) const {
@@ -389,12 +442,13 @@ namespace bloch::compiler {
         };
         std::unordered_set<std::string> hiddenSignatures;
         std::vector<Candidate> matches;
+        TypeInfo curType = searchType;  // the class being searched, with its type arguments
         while (cur) {
             auto mit = cur->methods.find(method);
             if (mit != cur->methods.end()) {
                 for (auto& cand : mit->second) {
                     auto expected =
-                        substituteMany(cand.paramTypes, cur->typeParams, searchType.typeArgs);
+                        substituteMany(cand.paramTypes, cur->typeParams, curType.typeArgs);
                     std::string signature = methodSignatureLabel(cand.name, expected);
                     if (hiddenSignatures.count(signature))
                         continue;
@@ -407,6 +461,7 @@ namespace bloch::compiler {
             }
             if (cur->base.empty())
                 break;
+            curType = baseTypeOf(curType);
             cur = findClass(cur->base);
         }
         if (matches.empty())
@@ -554,6 +609,17 @@ namespace bloch::compiler {
                    isSubclassOf(actual.className, expected.className);
         }
 
+        // generic types: a subclass is its base with the type arguments filled in
+        // (LabeledBox<int> is a Box<int>, Box<int> is an Object); 'this' inside a generic class
+        // is that class applied to its own type parameters
+        TypeInfo cur = actual;
+        if (cur.typeArgs.empty() && !m_currentClass.empty() && cur.className == m_currentClass)
+            cur = selfType();
+        for (int hops = 0; hops < 300 && !cur.className.empty(); ++hops) {
+            if (cur.className == expected.className)
+                return typeEquals(expected, cur);
+            cur = baseTypeOf(cur);
+        }
         return false;
     }
 
@@ -619,6 +685,17 @@ namespace bloch::compiler {
         if (typeEquals(expected, actual))
             return 0;
 
+        if (!(actual.typeArgs.empty() && expected.typeArgs.empty())) {
+            TypeInfo cur = actual;
+            if (cur.typeArgs.empty() && !m_currentClass.empty() && cur.className == m_currentClass)
+                cur = selfType();
+            for (int hops = 0; hops < 300 && !cur.className.empty(); ++hops) {
+                if (cur.className == expected.className)
+                    return typeEquals(expected, cur) ? std::optional<int>(hops) : std::nullopt;
+                cur = baseTypeOf(cur);
+            }
+            return std::nullopt;
+        }
         if (actual.typeArgs.empty() && expected.typeArgs.empty()) {
             int distance = inheritanceDistance(actual.className, expected.className);
             if (distance >= 0)
@@ -671,8 +748,18 @@ namespace bloch::compiler {
                         ErrorCategory::Semantic, m.line, m.column,
                         "static method '" + m.name + "' cannot be declared virtual or override");
                 }
-                const MethodInfo* baseMethod = findMethodInHierarchy(
-                    combine(ValueType::Unknown, info.base), m.name, &m.paramTypes);
+                // the base as written, type arguments included: an override is compared with the base
+                // method's types as seen from this class (put(T) of Box<Dog> is put(Dog) here)
+                const TypeInfo baseAsWritten =
+                    info.baseType.className.empty() ? combine(ValueType::Unknown, info.base) : info.baseType;
+                const MethodInfo* baseMethod =
+                    findMethodInHierarchy(baseAsWritten, m.name, &m.paramTypes);
+                std::vector<TypeInfo> baseParams;
+                TypeInfo baseReturn;
+                if (baseMethod) {
+                    baseParams = memberTypesFrom(baseAsWritten, baseMethod->owner, baseMethod->paramTypes);
+                    baseReturn = memberTypeFrom(baseAsWritten, baseMethod->owner, baseMethod->returnType);
+                }
                 if (m.isOverride) {
                     if (!baseMethod) {
                         throw BlochError(
@@ -687,16 +774,16 @@ namespace bloch::compiler {
                         throw BlochError(ErrorCategory::Semantic, m.line, m.column,
                                          "'" + m.name + "' cannot override a static base method");
                     }
-                    if (!paramTypesEqual(baseMethod->paramTypes, m.paramTypes)) {
+                    if (!paramTypesEqual(baseParams, m.paramTypes)) {
                         throw BlochError(ErrorCategory::Semantic, m.line, m.column,
                                          "parameter mismatch overriding '" + m.name + "'");
                     }
-                    if (!typeEquals(baseMethod->returnType, m.returnType)) {
+                    if (!typeEquals(baseReturn, m.returnType)) {
                         throw BlochError(ErrorCategory::Semantic, m.line, m.column,
                                          "return type mismatch overriding '" + m.name + "'");
                     }
                 } else if (baseMethod && baseMethod->isVirtual && !baseMethod->isStatic &&
-                           !m.isStatic && paramTypesEqual(baseMethod->paramTypes, m.paramTypes)) {
+                           !m.isStatic && paramTypesEqual(baseParams, m.paramTypes)) {
                     // "override required to replace a virtual base method": without it the method
                     // only hid the base one - calls through a base reference still ran the base
                     // method, a bodyless one included
@@ -1152,6 +1239,14 @@ namespace bloch::compiler {
                 throw BlochError(ErrorCategory::Semantic, info.line, info.column,
                                  "class 'Object' cannot declare type parameters");
             }
+            // the base with its type arguments, read with this class's type parameters in scope
+            if (!info.base.empty()) {
+                if (clsNode->baseType)
+                    info.baseType = typeFromAst(clsNode->baseType.get());
+                if (info.baseType.className != info.base) {
+                    info.baseType = combine(ValueType::Unknown, info.base);
+                }
+            }
             for (auto& member : clsNode->members) {
                 if (!member)
                     continue;
@@ -1473,7 +1568,7 @@ namespace bloch::compiler {
             if (local.value != ValueType::Unknown || !local.className.empty())
                 return local;
             if (auto field = resolveField(var->name, var->line, var->column))
-                return field->type;
+                return memberTypeFrom(selfType(), field->owner, field->type);
             // If it's a known type name, treat it as a type reference (e.g., for static calls).
             if (m_symbols.isTypeName(var->name))
                 return combine(ValueType::Unknown, var->name);
@@ -1511,14 +1606,13 @@ namespace bloch::compiler {
                 if (bi != builtInGates.end())
                     return combine(bi->second.returnType, "");
                 if (!m_currentClass.empty()) {
-                    auto* method = findMethodInHierarchy(
-                        combine(ValueType::Unknown, m_currentClass), callee->name, &argTypes);
+                    auto* method = findMethodInHierarchy(selfType(), callee->name, &argTypes);
                     if (method) {
                         if (!method->isStatic && m_inStaticContext)
                             return combine(ValueType::Unknown, "");
                         if (!isAccessible(method->visibility, method->owner, m_currentClass))
                             return combine(ValueType::Unknown, "");
-                        return method->returnType;
+                        return memberTypeFrom(selfType(), method->owner, method->returnType);
                     }
                 }
             } else if (auto mem = dynamic_cast<MemberAccessExpression*>(call->callee.get())) {
@@ -1526,11 +1620,11 @@ namespace bloch::compiler {
                 if (!obj.className.empty()) {
                     auto* method = findMethodInHierarchy(obj, mem->member, &argTypes);
                     if (method) {
-                        TypeInfo ret = method->returnType;
+                        // the declared return type as seen from the receiver's type (the method may
+                        // be inherited from a generic base)
+                        TypeInfo ret = memberTypeFrom(obj, method->owner, method->returnType);
                         const ClassInfo* cls = findClass(obj.className);
                         if (cls && !cls->typeParams.empty()) {
-                            // First, substitute class-level type arguments directly.
-                            ret = substituteTypeParams(ret, cls->typeParams, obj.typeArgs);
                             // Infer type arguments from actual call arguments (very simple: map
                             // type params to the corresponding actual argument types).
                             std::unordered_map<std::string, TypeInfo> binding;
@@ -1635,7 +1729,7 @@ namespace bloch::compiler {
                 if (local.value != ValueType::Unknown || !local.className.empty())
                     return local;
                 if (auto field = resolveField(v->name, v->line, v->column))
-                    return field->type;
+                    return memberTypeFrom(selfType(), field->owner, field->type);
                 return combine(ValueType::Unknown, "");
             }
             return combine(ValueType::Unknown, "");
@@ -1650,25 +1744,11 @@ namespace bloch::compiler {
                         searchType = *bound;
                 }
                 auto* field = findFieldInHierarchy(searchType, mem->member);
-                if (field) {
-                    if (!searchType.typeArgs.empty()) {
-                        const ClassInfo* ci = findClass(searchType.className);
-                        if (ci)
-                            return substituteTypeParams(field->type, ci->typeParams,
-                                                        searchType.typeArgs);
-                    }
-                    return field->type;
-                }
+                if (field)
+                    return memberTypeFrom(searchType, field->owner, field->type);
                 auto* method = findMethodInHierarchy(searchType, mem->member);
-                if (method) {
-                    if (!searchType.typeArgs.empty()) {
-                        const ClassInfo* ci = findClass(searchType.className);
-                        if (ci)
-                            return substituteTypeParams(method->returnType, ci->typeParams,
-                                                        searchType.typeArgs);
-                    }
-                    return method->returnType;
-                }
+                if (method)
+                    return memberTypeFrom(searchType, method->owner, method->returnType);
             }
             return combine(ValueType::Unknown, "");
         }
@@ -2129,7 +2209,7 @@ namespace bloch::compiler {
         if (auto field = resolveField(node.name, node.line, node.column)) {
             recordFinalFieldAssignment(*field, node.name, node.line, node.column);
             if (node.value) {
-                TypeInfo targetType = field->type;
+                TypeInfo targetType = memberTypeFrom(selfType(), field->owner, field->type);
                 rejectQubitAssignment(targetType, node.line, node.column);
                 checkArrayLiteralValue(targetType, node.value.get(), node.line, node.column);
                 inferDiamondTypeArguments(node.value.get(), targetType, node.line, node.column);
@@ -2596,9 +2676,7 @@ namespace bloch::compiler {
                                      "static methods should be accessed via the type, not super");
                 }
             }
-            auto params = method->paramTypes;
-            if (cls)
-                params = substituteMany(params, cls->typeParams, searchType.typeArgs);
+            auto params = memberTypesFrom(searchType, method->owner, method->paramTypes);
             checkArgs(params, member->member, node.line, node.column);
         } else if (auto superCtor = dynamic_cast<SuperExpression*>(node.callee.get())) {
             (void)superCtor;
@@ -2620,7 +2698,8 @@ namespace bloch::compiler {
                 for (const auto& ctor : base->constructors) {
                     if (!isAccessible(ctor.visibility, base->name, m_currentClass))
                         continue;
-                    auto cost = paramsConversionCost(ctor.paramTypes, actualTypes);
+                    auto cost = paramsConversionCost(
+                        memberTypesFrom(selfType(), base->name, ctor.paramTypes), actualTypes);
                     if (!cost)
                         continue;
                     if (*cost < bestCost) {
@@ -2871,7 +2950,7 @@ namespace bloch::compiler {
         if (auto field = resolveField(node.name, node.line, node.column)) {
             recordFinalFieldAssignment(*field, node.name, node.line, node.column);
             if (node.value) {
-                TypeInfo targetType = field->type;
+                TypeInfo targetType = memberTypeFrom(selfType(), field->owner, field->type);
                 rejectQubitAssignment(targetType, node.line, node.column);
                 checkArrayLiteralValue(targetType, node.value.get(), node.line, node.column);
                 inferDiamondTypeArguments(node.value.get(), targetType, node.line, node.column);
@@ -2954,9 +3033,7 @@ namespace bloch::compiler {
             recordFinalFieldAssignment(*field, node.member, node.line, node.column);
         }
         if (node.value) {
-            TypeInfo targetType = field->type;
-            if (!searchType.typeArgs.empty() && cls)
-                targetType = substituteTypeParams(targetType, cls->typeParams, searchType.typeArgs);
+            TypeInfo targetType = memberTypeFrom(searchType, field->owner, field->type);
             rejectQubitAssignment(targetType, node.line, node.column);
             checkArrayLiteralValue(targetType, node.value.get(), node.line, node.column);
             inferDiamondTypeArguments(node.value.get(), targetType, node.line, node.column);
